@@ -140,7 +140,9 @@ class AsyncTCPGateway(BaseAsyncGateway, BaseTCPGateway):
             super().check_connection()
         except OSError as exc:
             _LOGGER.error(exc)
-            self.tasks.transport.protocol.transport.close()
+            # Abort instead of close: close waits until the write buffer is
+            # flushed, which never happens if the gateway device stopped reading.
+            self.tasks.transport.protocol.transport.abort()
             self.tasks.transport.protocol.conn_lost_callback()
             return
 
